@@ -303,6 +303,7 @@ class InputsMachine(Machine):
               'use_mask': rng.chance(0.5), 'use_error': rng.chance(0.5),
               'variant': rng.randrange(6), 'nan_error': rng.chance(0.5),
               'opt': rng.randrange(8),
+              'alias': rng.chance(0.08),
               'mask_kind': rng.wpick(['mask', 'mask0'], [4, 1]),
               'error_kind': rng.wpick(['error', 'error_ma'], [4, 1])}
         if name == 'actor_read':
@@ -370,6 +371,12 @@ class InputsMachine(Machine):
         elif error is not None and op.get('variant', 0) in (1, 4) and \
                 op.get('nan_error'):
             error = P['error_nan']
+        if op.get('alias') and error is not None and isinstance(
+                data, np.ndarray) and type(data) is np.ndarray and \
+                data.dtype.kind == 'f':
+            # the caller passes the very same array object twice
+            error = data
+            st.stats.probe('same_object_passed_twice')
         out = fn(st, op, data, mask, error)
         st.nsteps += 1
         kind = ('raise' if isinstance(out, Raised) else
